@@ -82,3 +82,15 @@ Example C10_witness :
   ingest rows = [(s2l "AAAMK", ((1#1000)%Q, [s2l "P1"]))] /\
   remove_decoy_proteins_from_target_peptides [s2l "P1"; s2l "REV__P2"] = [s2l "P1"].
 Proof. vm_compute. split; reflexivity. Qed.
+
+(* Percolator flanks (after the repair D17): a peptide written "x.BODY.y" - whatever the two flanking characters, hyphens or residues -
+   is recognised as flanked and stripping returns BODY; a peptide without any dot is never taken for flanked *)
+Theorem C10_flanks_recognised_and_stripped : forall (a b : N) (body : str),
+  has_flanks (a :: 46%N :: body ++ [46%N; b]) = true /\ strip_flanks (a :: 46%N :: body ++ [46%N; b]) = body.
+Proof. intros a b body. split; [apply has_flanks_spec | apply strip_flanks_spec]. Qed.
+Print Assumptions C10_flanks_recognised_and_stripped.
+
+Theorem C10_unflanked_left_alone : forall s : str, ~ In 46%N s -> has_flanks s = false.
+Proof. exact no_dot_no_flanks. Qed.
+Print Assumptions C10_unflanked_left_alone.
+
